@@ -4,6 +4,7 @@ import (
 	"context"
 	"fmt"
 	"math/rand"
+	"runtime/debug"
 
 	"github.com/cloudwego/gopkg/bufiox"
 	"github.com/cloudwego/gopkg/protocol/thrift"
@@ -98,7 +99,9 @@ func c03Run(cs *drv.Case, b []byte, skipTypes []byte, allocCap uint32) {
 		pl := []string{"arena-end", "arena-start"}[where]
 		for i := range c03Entries {
 			e := &c03Entries[i]
-			if e.allocs && win > allocCap {
+			// entry points that allocate what the input declares: capped, unless the declared count is
+			// backed by the input itself (then the allocation is proportional to the input size)
+			if e.allocs && win > allocCap && int(win) > len(b) {
 				cs.C.Obs("alloc-capped calls", 1)
 				continue
 			}
@@ -302,6 +305,7 @@ func monC03(c *drv.Ctx) {
 	if fuzzReplayStage(c) {
 		return
 	}
+	defer c03DeepRecursion(c) // last: it lowers the stack limit of the process
 	allocCap := uint32(c.Pick(1<<12, 1<<16))
 	someTypes := func(cs *drv.Case) []byte {
 		return []byte{ref.STRUCT, ref.MAP, ref.LIST, ref.STRING, byte(cs.R.Intn(256)), 0x80 | byte(cs.R.Intn(128))}
@@ -384,6 +388,38 @@ func monC03(c *drv.Ctx) {
 		}
 	})
 
+	// (4b) large well-formed containers (element counts around 2^14, 2^15, 2^16: index arithmetic)
+	counts := []int{16383, 16384, 16385, 32767, 32768, 32769, 40000, 65535, 65536, 70000}
+	c.Stage("large-containers", int64(len(counts)*4), true, func(cs *drv.Case) {
+		n := counts[cs.Idx%int64(len(counts))]
+		shape := cs.Idx / int64(len(counts))
+		var v ref.Value
+		elems := func(t byte, k int) []ref.Value {
+			out := make([]ref.Value, k)
+			for i := range out {
+				out[i] = ref.Value{T: t, I: int64(i & 0x7f), Bool: i%2 == 0}
+			}
+			return out
+		}
+		switch shape {
+		case 0:
+			v = ref.Value{T: ref.LIST, VT: ref.BYTE, Elems: elems(ref.BYTE, n)}
+		case 1:
+			v = ref.Value{T: ref.SET, VT: ref.BOOL, Elems: elems(ref.BOOL, n)}
+		case 2:
+			v = ref.Value{T: ref.MAP, KT: ref.BYTE, VT: ref.BYTE, Elems: elems(ref.BYTE, 2*n)}
+		default:
+			v = ref.Value{T: ref.STRUCT, Fields: []ref.Field{{ID: 1, V: ref.Value{T: ref.LIST, VT: ref.I16, Elems: elems(ref.I16, n)}}}}
+		}
+		field := ref.EncFieldBegin(nil, v.T, 7)
+		field = v.Encode(field)
+		cs.Desc = M{"shape": shape, "elements": n, "input_len": len(field)}
+		c03Run(cs, field, []byte{ref.STRUCT}, allocCap)            // as an unknown-field sequence / struct body
+		c03Run(cs, append(field, 0), []byte{ref.STRUCT}, allocCap) // as a complete struct
+		cs.Count(true, "large", shape, n)
+		cs.C.Obs("large-container cases", 1)
+	})
+
 	// (5) huge declared sizes on the non-allocating entry points
 	c.Stage("huge-sizes", 64, true, func(cs *drv.Case) {
 		sizes := []uint32{0x7fffffff, 0x80000000, 0xffffffff, 0x7ffffffc, 0x00ffffff, 0x40000000, 0xfffffffc, 0x10000}
@@ -402,5 +438,49 @@ func monC03(c *drv.Ctx) {
 		cs.Desc = M{"input_hex": hexOf(b)}
 		c03Run(cs, b, []byte{ref.STRING, ref.MAP, ref.LIST, ref.SET, ref.STRUCT}, allocCap)
 		cs.Count(true, b)
+	})
+}
+
+// c03DeepRecursion feeds every recursive entry point hundreds of thousands of nested containers
+// with the goroutine stack capped at 64 MiB: recursion that is not bounded by a depth limit dies
+// with a fatal stack overflow (the worker crashes; the driver reports the case from the sidecar),
+// bounded recursion returns an error within microseconds.
+func c03DeepRecursion(c *drv.Ctx) {
+	c.Stage("deep-recursion", 8, true, func(cs *drv.Case) {
+		old := debug.SetMaxStack(64 << 20)
+		defer debug.SetMaxStack(old)
+		n := 400000
+		var b []byte
+		var t byte = ref.STRUCT
+		switch cs.Idx % 4 {
+		case 0:
+			for i := 0; i < n; i++ {
+				b = append(b, ref.STRUCT, 0, 1)
+			}
+		case 1:
+			t = ref.LIST
+			for i := 0; i < n; i++ {
+				b = append(b, ref.LIST, 0, 0, 0, 1)
+			}
+		case 2:
+			t = ref.MAP
+			for i := 0; i < n; i++ {
+				b = append(b, ref.I32, ref.MAP, 0, 0, 0, 1, 0, 0, 0, 9)
+			}
+		default:
+			t = ref.MAP
+			for i := 0; i < n; i++ {
+				b = append(b, ref.MAP, ref.I32, 0, 0, 0, 1)
+			}
+		}
+		if cs.Idx >= 4 {
+			b = append(ref.EncFieldBegin(nil, t, 5), b...) // as a field of a struct / unknown-field sequence
+			t = ref.STRUCT
+		}
+		cs.Desc = M{"nested_containers": n, "type": t, "input_len": len(b), "stack_cap": "64 MiB"}
+		// these inputs declare no size above 1: the allocation cap (a scan of 4-byte windows) does not apply
+		c03Run(cs, b, []byte{t}, 1<<31)
+		cs.Count(true, "deep", cs.Idx)
+		cs.C.Obs("deep-recursion cases", 1)
 	})
 }
